@@ -477,6 +477,17 @@ pub fn gen_c01(run: &mut Run, seed: u64, thorough: bool) {
         }
         g.run.op("gw.epoch", "q");
     }
+    // gateways whose ONLY signer set is malformed (duplicated key, zero weight, threshold above the total, …): such a set
+    // must never become a live set — construction fails; should it succeed, "proofs" by it are submitted right away
+    for (k, (bad, name)) in malformed_sets(&mut g).into_iter().enumerate() {
+        g.new_gateway(&format!("c01-ctor-malformed-{k}-{name}"), vec![bad.clone()], 1, 0);
+        let m = g.fresh_msg();
+        let dh = approve_data_hash(&g.env, &[m.clone()]);
+        let d = g.signers_digest(&bad, &dh);
+        let pf = g.proof(&bad, &d, &vec![SigMode::Valid; bad.signers.len()]);
+        g.approve(&[m.clone()], &pf, &format!("approve-by-malformed-initial-set-{name}"));
+        g.q_msg(&m);
+    }
     // near-overflow: weights summing to exactly 2^128-1; and a proof whose declared weights overflow
     {
         let idx: Vec<usize> = (0..3).collect();
